@@ -136,6 +136,11 @@ package server
 // no payee), sits on that transaction's first line and is as long as its name in UTF-16 units. (The handler walks the
 // open documents through sync.Map.Range, which is not modelled: the precondition - parser-made ranges - is assumed
 // there.)
+// The handler takes the open documents from a sync.Map: the only thing it keeps from that walk is the list of URIs, which
+// it sorts (a total order on strings) before anything else reads it - so the order of the answer does not depend on the
+// map's iteration order (decided on the SSA form; sync.Map.Range itself is not modelled).
+//@ rangesorted (*Server).WorkspaceSymbol uris
+//@   props C15
 //@ pred PayeeOf(tx) := ite(tx.Payee != "", tx.Payee, tx.Description)
 //@ pred DirSym(j, s) := exists d int :: 0 <= d && d < len(j.Directives) && ((typeis(j.Directives[d], "ast.AccountDirective") && s.Name == as(j.Directives[d], "ast.AccountDirective").Account.Name) || (typeis(j.Directives[d], "ast.CommodityDirective") && s.Name == as(j.Directives[d], "ast.CommodityDirective").Commodity.Symbol))
 //@ pred PaySym(j, s, n) := exists i int :: 0 <= i && i <= n && i < len(j.Transactions) && s.Name == PayeeOf(j.Transactions[i]) && s.Location.Range.Start.Line == j.Transactions[i].Date.Range.Start.Line - 1 && s.Location.Range.End.Line == s.Location.Range.Start.Line && s.Location.Range.End.Character - s.Location.Range.Start.Character == u16(s.Name, len(s.Name))
@@ -203,6 +208,7 @@ package server
 //@   loop 1 invariant forall i int :: {tokens[i]} 0 <= i && i < len(tokens) ==> tokens[i].length >= 0
 //@   loop 1 invariant forall i int, j int :: {tokens[i]; tokens[j]} 0 <= i && i < j && j < len(tokens) ==> tokens[i].col + tokens[i].length <= tokens[j].col && tokens[i].col <= tokens[j].col
 //@   loop 1 decreases len(parts) - rangeindex
+//@   loop 1 exhaustive
 
 //@ func tokenizeForSemantics
 //@   props C17 C06
